@@ -215,6 +215,10 @@ def get_ipv6_addr_by_EUI64(prefix, mac):
     try:
         eui64 = int(netaddr.EUI(mac).eui64())
         prefix = netaddr.IPNetwork(prefix)
+        if prefix.version != 6:
+            # An IPv4 network (e.g. '10.0.0.0/8') is not caught by the
+            # address check above
+            raise ValueError('IPv4 prefix')
         return netaddr.IPAddress(prefix.first + eui64 ^ (1 << 57))
     except (ValueError, netaddr.AddrFormatError):
         raise ValueError(_('Bad prefix or mac format for generating IPv6 '
